@@ -628,3 +628,70 @@ CONTRACTS["model:Parameter.constrain#vector"] = dict(
         ("C06.identity_without_limits", "implies(self.limits is None, all(self.vals[i] == old(self.vals[i]) for i in range(len(self.vals))))"),
     ],
     frame_props=["C06"], defined_props=["C06"])
+
+
+# ---- Characteristic.vals after the run (reporting, C07): the sum of the member compartments, divided by the denominator where one is
+# defined, reported as 0 when the NUMERATOR is below 1e-6 people.  One time point, two members, symbolic sizes.
+def _env_charac_vals(with_denominator):
+    def make(it):
+        import z3
+        from pyvc.interp import PyObjV
+        from pyvc.core import LArr
+        from pyvc import source
+
+        mm = source.load("model")
+        a, b, d = z3.Real("size_a"), z3.Real("size_b"), z3.Real("size_denominator")
+        it.pc.append(z3.And(a >= 0, b >= 0, d > 0))
+        comp = lambda nm, v: PyObjV("Compartment", mm, {"id": ("pop", nm), "vals": LArr(1, lambda i, v=v: v)})
+        self = PyObjV("Characteristic", mm, {"id": ("pop", "ch"), "_vals": None, "t": LArr(1, lambda i: 2000.0), "includes": [comp("a", a), comp("b", b)],
+                                             "denominator": comp("d", d) if with_denominator else None})
+        return {"self": self, "a": a, "b": b, "d": d}
+
+    return make
+
+
+CONTRACTS["model:Characteristic.vals#with_denominator"] = dict(
+    schema=schema, make_env=_env_charac_vals(True),
+    ensures=[("C07.reported_fraction_is_members_over_denominator", "implies(a + b >= 1e-06, result[0] == (a + b) / d)"),
+             ("C07.numerator_below_a_millionth_of_a_person_is_reported_as_zero", "implies(a + b < 1e-06, result[0] == 0)")],
+    defined_props=["C07"])
+CONTRACTS["model:Characteristic.vals#without_denominator"] = dict(
+    schema=schema, make_env=_env_charac_vals(False),
+    ensures=[("C07.reported_characteristic_is_the_sum_of_its_members", "result[0] == a + b")],
+    defined_props=["C07"])
+
+
+def _replay_charac_vals(model, contract):
+    """replay on REAL Characteristic / Compartment objects with the model's sizes"""
+    import numpy as np
+    import z3
+    import atomica.model as am
+
+    def val(name):
+        v = model.eval(z3.Real(name), model_completion=True)
+        try:
+            return float(v.numerator_as_long()) / float(v.denominator_as_long())
+        except Exception:
+            v = v.approx(15)
+            return float(v.numerator_as_long()) / float(v.denominator_as_long())
+
+    a, b, d = val("size_a"), val("size_b"), val("size_denominator")
+
+    def comp(nm, v):
+        c = object.__new__(am.Compartment)
+        c.id, c.vals = ("pop", nm), np.array([v], dtype=float)
+        return c
+
+    ch = object.__new__(am.Characteristic)
+    ch.id, ch._vals, ch.t, ch.includes = ("pop", "ch"), None, np.array([2000.0]), [comp("a", a), comp("b", b)]
+    ch.denominator = comp("d", d) if contract["with_denominator"] else None
+    got = float(ch.vals[0])
+    want = (a + b) if not contract["with_denominator"] else (0.0 if a + b < 1e-6 else (a + b) / d)
+    ok = abs(got - want) <= 1e-9 * max(1.0, abs(want))
+    return dict(verdict="holds" if ok else "violates", detail="members %r + %r, denominator %r: reported %r, documented %r" % (a, b, d if contract["with_denominator"] else None, got, want),
+                prestate=dict(size_a=a, size_b=b, denominator=d if contract["with_denominator"] else None))
+
+
+for _k, _wd in (("model:Characteristic.vals#with_denominator", True), ("model:Characteristic.vals#without_denominator", False)):
+    CONTRACTS[_k]["replay_hook"] = _replay_charac_vals
+    CONTRACTS[_k]["with_denominator"] = _wd
